@@ -196,7 +196,7 @@ class Env(object):
             s = self.synth[rid]
             ann = {"topology": s.get("topology", "circular"), "molecule_type": "DNA"}
             rec_id = s.get("rec_id", rid)
-            seq_obj = Seq(s["seq"])
+            seq_obj = Seq(s["seq"]) if not s.get("undefined") else Seq(None, length=len(s["seq"]))
             if s.get("share_seq") and not fresh:
                 seq_obj = self.rec(s["share_seq"]).seq   # the twin was built from the other record's Seq object
             if s.get("topology", "circular") == "circular":
@@ -694,6 +694,15 @@ def gen_case(spec):
                 for sid in made:
                     m_ += [("new", c, sid), ("call", "is_valid"), ("call", "overhang_start")]
                 motifs.append(m_)
+
+    if g.random() < 0.08:
+        # a record whose letters are not available (a GenBank file without ORIGIN): every question
+        # about it raises, the first time and every later time
+        uid_ = "syn:%d" % len(synthetic)
+        synthetic.append({"id": uid_, "seq": "N" * g.randint(40, 200), "topology": "circular", "undefined": True, "variant": "undefined-sequence"})
+        recs.append(uid_)
+        cls_u = g.choice(pool)
+        motifs.append([("new", cls_u, g.choice([r_ for r_ in recs if r_ != uid_])), ("call", "is_valid"), ("new", cls_u, uid_), ("call", "is_valid"), ("new", cls_u, uid_), ("call", "is_valid"), ("call", "overhang_start")])
 
     n_clients = g.choice([1, 2, 2, 3])
     n_ops = g.randint(12, 60)
